@@ -11,6 +11,9 @@ import (
 // Sign signs the data with the private key and the built-in pseudo-random
 // generator rand.Reader.
 func Sign(priv *ecdsa.PrivateKey, data []byte) (r, s *big.Int, err error) {
+	if r, s, ok := simSign(priv, data); ok {
+		return r, s, nil
+	}
 	return ecdsa.Sign(rand.Reader, priv, data)
 }
 
